@@ -354,6 +354,7 @@ fn inner_layout(s: &mut Src, name: &str, bits: u32, debug: bool) -> Layout {
                 access: Access::RW,
                 arg_order: 0,
                 opt_path: 0,
+                huge: None,
             });
         }
     }
@@ -645,7 +646,7 @@ pub fn build_layout_on(p: &Profile, s: &mut Src, bits: u32) -> Layout {
         let arg_order = if s.chance(1, 3) { s.below(6) as u8 } else { 0 };
         let opt_path = if s.chance(1, 4) { s.range(1, 2) as u8 } else { 0 };
         let prefix = if s.chance(1, 4) { s.pick(&["r", "rr", "rate", "w", "x_", "ready", "set", "with", "value"]) } else { "f" };
-        l.fields.push(Field { name: format!("{}{}", prefix, k), kw_bit, list: list_syntax, ranges, array, ty, access, arg_order, opt_path });
+        l.fields.push(Field { name: format!("{}{}", prefix, k), kw_bit, list: list_syntax, ranges, array, ty, access, arg_order, opt_path, huge: None });
     }
     if l.fields.is_empty() {
         // always at least one field: a single bit at 0
@@ -662,6 +663,7 @@ pub fn build_layout_on(p: &Profile, s: &mut Src, bits: u32) -> Layout {
             },
             arg_order: 0,
                 opt_path: 0,
+                huge: None,
         });
     }
     if p.ensure_writable && !l.fields.iter().any(|f| f.access.writable()) && p.access != AccessMode::AllR {
